@@ -110,6 +110,10 @@ func stdlibUser(t *rapid.T, i int) []val.V {
 	// a def inside a future body is local to that body: every program uses the SAME working name
 	src = append(src, fmt.Sprintf("(deref (future (do (def scratch %d) (sleep 2) (list scratch (+ scratch 1)))))", 10*(i+1)),
 		fmt.Sprintf("(let (fs (map (fn (j) (future (do (def scratch (+ %d j)) (sleep 1) scratch))) [1 2])) (map deref fs))", 100*(i+1)))
+	// a memoized function is asked for the same argument by several futures while the first computation is still going on
+	src = append(src, fmt.Sprintf("(def %sslow-sq (memoize (fn (x) (do (sleep 3) (* x x))))) (map deref (list (future (%sslow-sq 7)) (future (%sslow-sq 7)) (future (do (sleep 1) (%sslow-sq 7)))))", p, p, p, p),
+		// a future started inside a nested let of a function body reads that function's parameter while the body goes on defining names
+		fmt.Sprintf("(def %sbusy (fn (q) (do (def pending (let (w 1) (future (do (sleep 1) (+ q w (+ q w) (+ q w)))))) (def n1 1) (def n2 2) (def n3 3) (def n4 4) (def n5 5) (def n6 6) (+ n1 n2 n3 n4 n5 n6 (deref pending))))) (%sbusy %d)", p, p, i))
 	n := 2 + gen.Uniform(t, "nstd", len(src)-1)
 	forms := []val.V{}
 	for j := 0; j < n; j++ {
